@@ -55,13 +55,56 @@ theorem eof_safe : eofSafe = true := by decide
 /-- the comment start is not the comment terminator, so skipping a comment consumes its `;` -/
 theorem comment_start_ne_stop : commentStart ≠ commentStop := by decide
 
-theorem lexRun_no_hang (p : Char → Bool) (k : TK) (c : Char) (cs : List Char) (acc : List Tok)
-    (cont : List Char → List Tok → LexOut) (ts : List Tok) (hp : p c = true)
-    (hc : ∀ b a, b.length < (c :: cs).length → cont b a ≠ .hang ts) :
-    lexRun true p k (c :: cs) acc cont ≠ .hang ts := by
-  unfold lexRun
-  simp only [Bool.not_true, Bool.and_false, Bool.false_eq_true, if_false]
-  exact hc _ _ (spanW_length_lt p c cs hp)
+/-- every step that continues leaves strictly less input (and never hangs when the EOF guards are present) -/
+theorem lexStep_progress (es em : Bool) (inp : List Char) :
+    lexStep true es em inp ≠ .hang ∧
+    (∀ rest, lexStep true es em inp = .skip rest → rest.length < inp.length) ∧
+    (∀ t es' em' rest, lexStep true es em inp = .emit t es' em' rest → rest.length < inp.length) := by
+  unfold lexStep
+  have hsp := spanW_length isSpace inp
+  generalize (spanW isSpace inp).2 = inp' at hsp
+  cases inp' with
+  | nil => simp only; split <;> simp
+  | cons c cs =>
+    simp only
+    have hlen : (c :: cs).length ≤ inp.length := hsp
+    have run : ∀ (p : Char → Bool) (k : TK) (e1 e2 : Bool), p c = true →
+        stepRun true p k e1 e2 (c :: cs) ≠ .hang ∧
+        (∀ rest, stepRun true p k e1 e2 (c :: cs) = .skip rest → rest.length < inp.length) ∧
+        (∀ t es' em' rest, stepRun true p k e1 e2 (c :: cs) = .emit t es' em' rest → rest.length < inp.length) := by
+      intro p k e1 e2 hp
+      have := spanW_length_lt p c cs hp
+      unfold stepRun
+      simp only [Bool.not_true, Bool.and_false, Bool.false_eq_true, if_false]
+      refine ⟨by simp, by simp, ?_⟩
+      intro t es' em' rest h
+      simp only [Step.emit.injEq] at h
+      rw [← h.2.2.2]; omega
+    split
+    · rename_i h; simp only [Bool.and_eq_true] at h; exact run _ _ _ _ h.2
+    · split
+      · split
+        · rename_i h; exact run _ _ _ _ h
+        · simp
+      · split
+        · rename_i hc
+          simp only [Bool.not_true, Bool.and_false, Bool.false_eq_true, if_false]
+          have : (spanW (fun x => decide (x ≠ commentStop)) (c :: cs)).2.length < (c :: cs).length :=
+            spanW_length_lt _ c cs (by rw [hc]; simpa using comment_start_ne_stop)
+          refine ⟨by simp, ?_, by simp⟩
+          intro rest h
+          simp only [Step.skip.injEq] at h
+          rw [← h]; omega
+        · split
+          · refine ⟨by simp, by simp, ?_⟩
+            intro t es' em' rest h
+            simp only [Step.emit.injEq] at h
+            rw [← h.2.2.2]; simp at hlen ⊢; omega
+          · split
+            · rename_i h; exact run _ _ _ _ h
+            · split
+              · rename_i h; exact run _ _ _ _ h
+              · simp
 
 /-- with the EOF guards in place, enough fuel for the input length is never exhausted: `lexAll` returns `ok`
 or `err`, never `hang` -/
@@ -72,36 +115,14 @@ theorem lexAll_no_hang : ∀ (f : Nat) (es em : Bool) (inp : List Char) (acc : L
   | zero => intro es em inp acc h; omega
   | succ f ih =>
     intro es em inp acc hf ts
+    obtain ⟨h1, h2, h3⟩ := lexStep_progress es em inp
     unfold lexAll
-    have hsp := spanW_length isSpace inp
-    generalize (spanW isSpace inp).2 = inp' at hsp
-    cases inp' with
-    | nil => simp only; split <;> simp
-    | cons c cs =>
-      simp only
-      have hlen : (c :: cs).length ≤ inp.length := hsp
-      have cont_ok : ∀ (es' em' : Bool) b a, b.length < (c :: cs).length → lexAll true f es' em' b a ≠ .hang ts :=
-        fun es' em' b a hb => ih _ _ _ _ (by omega) ts
-      split
-      · rename_i h; simp only [Bool.and_eq_true] at h
-        exact lexRun_no_hang _ _ c cs acc _ ts h.2 (cont_ok _ _)
-      · split
-        · split
-          · rename_i h; exact lexRun_no_hang _ _ c cs acc _ ts h (cont_ok _ _)
-          · simp
-        · split
-          · rename_i hc
-            simp only [Bool.not_true, Bool.and_false, Bool.false_eq_true, if_false]
-            have : (spanW (fun x => decide (x ≠ commentStop)) (c :: cs)).2.length < (c :: cs).length :=
-              spanW_length_lt _ c cs (by rw [hc]; simpa using comment_start_ne_stop)
-            exact cont_ok _ _ _ _ this
-          · split
-            · exact cont_ok _ _ _ _ (by simp)
-            · split
-              · rename_i h; exact lexRun_no_hang _ _ c cs acc _ ts h (cont_ok _ _)
-              · split
-                · rename_i h; exact lexRun_no_hang _ _ c cs acc _ ts h (cont_ok _ _)
-                · simp
+    cases hs : lexStep true es em inp with
+    | eof => simp
+    | fail => simp
+    | hang => exact absurd hs h1
+    | skip rest => simp only; exact ih _ _ _ _ (by have := h2 rest hs; omega) ts
+    | emit t es' em' rest => simp only; exact ih _ _ _ _ (by have := h3 t es' em' rest hs; omega) ts
 
 /-- **the lexer terminates on every input** -/
 theorem lex_total (s : List Char) : ∀ ts, lexChars s ≠ .hang ts := by
